@@ -410,6 +410,12 @@ class Prop:
                 cases.append(gen_wire_case(rng, code))
         for _ in range(nw):
             cases.append(gen_wire_case(rng))
+        # Unknown{type, value}: every type 0..41 (and a few beyond) against every small length
+        for ty in list(range(0, 42)) + [99, 128, 255, 256, 257, 258, 261, 511]:
+            if (ty & 255) in NONCORE and ty < 256:
+                continue
+            for ln in (0, 1, 2, 3, 4, 5, 6, 7, 8, 9, 12, 16, 24, 32):
+                cases.append({'k': 1, 'api': [1, T | O, ty, [(7 * k + ln) & 3 if k % 6 < 2 else 0 for k in range(ln)]]})
         for v in (0, 1, 2, 3, 4, 5, 6, 7, 8, 9, 10, 11, 14, 21, 99):
             for _ in range(6):
                 cases.append(gen_api_case(rng, v))
